@@ -35,7 +35,7 @@ func init() { register("fileepoch", fileEpochEngine{}) }
 func (fileEpochEngine) Gen(rng *rand.Rand, tier string, i int) any {
 	c := &fileEpochCase{Seed: rng.Int63(), Epochs: 40, Burst: 128 + rng.Intn(160), V6: i%3 == 2}
 	if tier == "thorough" {
-		c.Epochs = 200
+		c.Epochs = 100
 	}
 	return c
 }
